@@ -5,7 +5,9 @@
 //!
 //! case   {id, kind, p, path, recycle?, input: [{k, key, v, ts, tick, op, opt}, ...]}
 //!   kind   count | event | txn | pt | session
-//!   p      count: {n, s, exact}   event: {size, slide}   txn: {}   pt: {size, slide}  session: {gap}
+//!   p      count: {n, s, exact, agg?}  (agg, keyed path only: first | last | min | max | count -
+//!          the library aggregator instead of the collecting fold; min/max by (37 * id) % 101)
+//!          event: {size, slide}   txn: {}   pt: {size, slide}  session: {gap}
 //!          (pt / session: sizes in ticks; 1 tick = 10 ms of MOCK time)
 //!   path   direct: `WindowDescription::build(acc)` + `WindowManager::process`, one manager, driven
 //!                  the way `WindowOperator` drives the manager of one key (after a control element
@@ -321,7 +323,37 @@ fn run_keyed(case: &Value) -> Vec<Value> {
                 .for_each(|_| {});
         }};
     }
+    let agg = p.get("agg").and_then(|a| a.as_str()).unwrap_or("fold").to_string();
+    macro_rules! finish_agg {
+        ($ks:expr) => {{
+            let (c, l) = (consumed.clone(), log.clone());
+            $ks.unkey()
+                .add_operator(move |prev| ProbeOp {
+                    prev,
+                    consumed: c,
+                    log: l,
+                })
+                .for_each(|_| {});
+        }};
+    }
+    let agg_key = |e: &El| (37 * e.1) % 101;
     match kind.as_str() {
+        // the library aggregators over count windows: each must see exactly the group
+        "count" if agg != "fold" => {
+            let w = keyed.window(CountWindow::new(
+                gi("n") as usize,
+                gi("s") as usize,
+                p["exact"].as_bool().unwrap_or(true),
+            ));
+            match agg.as_str() {
+                "first" => finish_agg!(w.first().map(|(_, e): (&i64, El)| vec![e.1])),
+                "last" => finish_agg!(w.last().map(|(_, e): (&i64, El)| vec![e.1])),
+                "min" => finish_agg!(w.min_by_key(agg_key).map(|(_, e): (&i64, El)| vec![e.1])),
+                "max" => finish_agg!(w.max_by_key(agg_key).map(|(_, e): (&i64, El)| vec![e.1])),
+                "count" => finish_agg!(w.count().map(|(_, n): (&i64, usize)| vec![n as i64])),
+                a => panic!("bad aggregator {a}"),
+            }
+        }
         "count" => finish!(CountWindow::new(
             gi("n") as usize,
             gi("s") as usize,
